@@ -547,6 +547,8 @@ MUTANTS = [
             },
             ValuePointerRef::Origin,""")]},
     # ------------------------------------------------------------------ behaviour-preserving variants (must stay silent)
+    {"id": "unchanged-tree", "kind": "preserving", "decided": True, "props": [], "edits": [
+        ("src/lib.rs", "#![doc = include_str!", "#![doc = include_str!")], "note": "the pinned tree: silent and nothing UNDECIDED"},
     {"id": "keep-comments-shift-lines", "kind": "preserving", "props": [], "edits": [
         (IMPLS, "use crate::{", "// a comment\n\n// another comment that shifts every line number\n\nuse crate::{"),
         ("src/errors/json.rs", "use super::helpers::did_you_mean;", "// shifted\n\n\nuse super::helpers::did_you_mean;"),
